@@ -233,6 +233,22 @@ func verifValue(name string) []byte {
 	case 4:
 		l = verifParam("vbig3")
 	}
+	// vwin_lo..vwin_hi: (real-geometry jobs) one more length class - a symbolic length inside a window, e.g. around
+	// the value length that lands the record end on a 32 KiB block boundary; the solver enumerates the window
+	if hi := verifParam("vwin_hi"); hi > 0 && verifChoice(name+"-win", 2) == 1 {
+		l = verifInt(name + "-winlen")
+		verifAssume(l >= verifParam("vwin_lo"))
+		verifAssume(l <= hi)
+	}
+	if l > 64 && verifParam("sparse") == 1 {
+		// long values at real geometry: concrete filler with symbolic first, middle and last bytes
+		v := make([]byte, l)
+		for i := range v {
+			v[i] = byte(i*131 + 7)
+		}
+		v[0], v[l/2], v[l-1] = verifU8(name+"-b0"), verifU8(name+"-bm"), verifU8(name+"-bl")
+		return v
+	}
 	return verifBytes(name, l)
 }
 
